@@ -45,6 +45,28 @@ NOTES.update({
  "C19-2": ("missed at first", "Hermitian [0] (+) H with isolated first coordinate; lower nilpotent; zero first row / last column"),
  "C20-2": ("caught", ""),
 })
+NOTES.update({
+ "C01-3": ("caught", ""),
+ "C02-3": ("caught", ""),
+ "C03-3": ("caught", ""),
+ "C04-3": ("caught", ""),
+ "C13-3": ("caught", ""),
+ "C16-3": ("caught", ""),
+ "C05-3": ("caught by thorough only", "sign-pattern entry classes (real non-positive, non-positive, non-negative, exact cancellations, mixed magnitudes) in the quick tier"),
+ "C06-3": ("caught", ""),
+ "C07-3": ("missed at first", "exact (dyadic) deficiency first showing at elimination step c for EVERY c of tall, square and wide shapes: the zero-pivot guard has to fire at the first, an interior and the last diagonal position"),
+ "C08-3": ("caught", ""),
+ "C09-3": ("missed at first", "near-Hessenberg inputs (sub-Hessenberg part of relative size 1e-4 .. 1e-12, one size per column) and graded columns: small is not negligible"),
+ "C10-3": ("caught", ""),
+ "C11-3": ("caught by thorough only", "extreme aspect ratios (m >= 4n, n >= 4m) for every rank in the quick tier"),
+ "C12-3": ("caught", ""),
+ "C14-3": ("missed at first", "CGNE configurations with sketch rank 2 and 3 (at rank 1 the result does not depend on the sketch at all), with and without constructor seed"),
+ "C15-3": ("caught", ""),
+ "C17-3": ("missed at first", "per-channel amplitudes (1e-20 .. 1e8, mixed within one image); every blur / restoration clause is judged per channel relative to that channel"),
+ "C18-3": ("caught", ""),
+ "C19-3": ("caught", ""),
+ "C20-3": ("caught", ""),
+})
 for d in sorted(glob.glob(os.path.join(HERE, "seeded", "C*"))):
     pid = os.path.basename(d)[:3]
     agent = {}
